@@ -51,7 +51,14 @@ WANTED = [("sbdfstring.c", "sbdf_convert_utf8_to_iso88591"), ("sbdfstring.c", "s
           ("columnslice.c", "sbdf_cs_destroy_all"), ("columnslice.c", "sbdf_cs_destroy"),
           ("tableslice.c", "sbdf_ts_create"), ("tableslice.c", "sbdf_ts_destroy"), ("tablemetadata.c", "sbdf_tm_destroy"),
           # growing arrays of pointers
-          ("internals.c", "sbdf_alloc"), ("tableslice.c", "sbdf_ts_add"), ("columnslice.c", "sbdf_cs_add_property")]
+          ("internals.c", "sbdf_alloc"), ("tableslice.c", "sbdf_ts_add"), ("columnslice.c", "sbdf_cs_add_property"),
+          # skipping: objects, value arrays (the shared reader / skipper sbdf_read_valuearray_int is translated IN PART: what it
+          # does with a non-null handle - allocation, reading into structs - becomes SFault, so only its skipping paths can run)
+          ("object.c", "sbdf_skip_objects"), ("object.c", "sbdf_obj_skip_arr"), ("object.c", "sbdf_obj_skip"),
+          ("valuearray.c", "sbdf_read_valuearray_int"), ("valuearray.c", "sbdf_va_skip"), ("columnslice.c", "sbdf_cs_skip")]
+PARTIAL = {"sbdf_read_valuearray_int"}          # untranslatable statements of these become SFault instead of failing the function
+IN_PARTIAL = [False]
+GLOBAL_VT = {}          # file-level sbdf_valuetype variables that are initialised with a literal and never written: name -> id
 CALLABLE = set(w[1] for w in WANTED if len(w) == 2) | {"sbdf_swap"}
 
 
@@ -98,7 +105,7 @@ def call_stmt(ret, n, scope, value_args_only=False):
                 if b.get("kind") == "DeclRefExpr" and b.get("referencedDecl", {}).get("kind") == "ParmVarDecl" and qt(b).replace(" ", "") == "sbdf_valuetype*":
                     nm = b["referencedDecl"]["name"]; OUTPARAMS.add("*" + nm); cells.append("*" + nm); args.append('(AFwd "%s")' % nm); continue
             v = var_of(t, scope)
-            if v is None or qt(t) != "int": raise Untranslatable("address of something that is not an int local")
+            if v is None or qt(t) not in ("int", "sbdf_valuetype"): raise Untranslatable("address of something that is not an int local")
             cells.append(v); args.append('(AAddr "%s")' % v); continue
         if u.get("kind") == "DeclRefExpr" and u.get("referencedDecl", {}).get("kind") == "ParmVarDecl" and qt(u).replace(" ", "") in CELLPTR:
             nm = u["referencedDecl"]["name"]; OUTPARAMS.add("*" + nm); cells.append("*" + nm); args.append('(AFwd "%s")' % nm); continue
@@ -130,7 +137,7 @@ def ast_of(path, cfg=()):
 
 
 BIN = {"+": "Add", "-": "Sub", "*": "Mul", "/": "Div", "<<": "Shl", ">>": "Shr", "&": "BAnd", "|": "BOr", "^": "BXor",
-       "<": "Lt", "<=": "Le", ">": "Gt", ">=": "Ge", "==": "Eq", "!=": "Ne"}
+       "<": "Lt", "<=": "Le", ">": "Gt", ">=": "Ge", "==": "Eq", "!=": "Ne", "%": "Mod"}
 PENDING = []          # calls met inside an expression: hoisted in front of the statement, the result in a temporary
 CTY = {"int": "TInt", "unsigned char": "TUChar", "char": "TChar", "const char": "TChar", "const unsigned char": "TUChar", "const int": "TInt",
        "unsigned int": "TUInt", "const unsigned int": "TUInt"}
@@ -170,6 +177,33 @@ def load_structs(tu):
         for c in n.get("inner", []):
             if isinstance(c, dict) and c.get("kind") in ("RecordDecl", "TypedefDecl", "LinkageSpecDecl"): walk(c)
     for c in tu.get("inner", []): walk(c)
+
+
+def global_vts(tu):
+    """file-level sbdf_valuetype variables initialised with { literal } that nothing in the file assigns to or takes the address of"""
+    found = {}
+    for n in tu.get("inner", []):
+        if n.get("kind") == "VarDecl" and norm_t(qt(n)) == "sbdf_valuetype" and n.get("inner"):
+            i = unparen(n["inner"][0])
+            if i.get("kind") == "InitListExpr" and len(i.get("inner", [])) == 1:
+                l = strip_casts(i["inner"][0])
+                if l.get("kind") == "IntegerLiteral": found[n["name"]] = int(l["value"])
+    def refs(x, acc):
+        if x.get("kind") == "DeclRefExpr" and x.get("referencedDecl", {}).get("name") in found: acc.add(x["referencedDecl"]["name"])
+        for c in x.get("inner", []):
+            if isinstance(c, dict): refs(c, acc)
+    bad = set()
+    def walk(x):
+        k = x.get("kind")
+        if k in ("BinaryOperator", "CompoundAssignOperator") and (x.get("opcode") == "=" or k == "CompoundAssignOperator"):
+            refs(x["inner"][0], bad)
+        if k == "UnaryOperator" and x.get("opcode") in ("&", "++", "--"):
+            refs(x["inner"][0], bad)
+        for c in x.get("inner", []):
+            if isinstance(c, dict): walk(c)
+    for n in tu.get("inner", []):
+        if n.get("kind") == "FunctionDecl": walk(n)
+    return {k_: v for k_, v in found.items() if k_ not in bad}
 
 
 def norm_t(t):
@@ -392,6 +426,15 @@ def expr(n, scope):
             a0, a1, a2 = [strip_casts(x) for x in n["inner"][1:]]
             whence = a2.get("kind") == "IntegerLiteral" and int(a2["value"]) == 1          # SEEK_CUR
             fparam = a0.get("kind") == "DeclRefExpr" and a0.get("referencedDecl", {}).get("kind") == "ParmVarDecl" and "FILE" in qt(a0)
+            off = unparen(n["inner"][2])
+            if whence and fparam and qt(off) == "long" and off.get("kind") == "BinaryOperator" and off.get("opcode") == "*" \
+                    and all(qt(strip_casts(x)) == "int" and qt(unparen(x)) == "long" for x in off["inner"]):
+                # (long)c * sz with two ints: carried out in long
+                ea, fa = expr(off["inner"][0], scope)
+                eb, fb = expr(off["inner"][1], scope)
+                if fa.w or fb.w or fa.io or fb.io: raise Untranslatable("fseek offset with side effects")
+                f = fx_join(fa, fb); f.io = True; f.stream = True
+                return "(ESeekCur (ELongMul %s %s))" % (ea, eb), f
             if whence and fparam and qt(strip_casts(n["inner"][2])) == "int":
                 e, f = expr(n["inner"][2], scope)
                 if isinstance(e, str) and e.startswith("(ECast"): pass
@@ -410,6 +453,9 @@ def expr(n, scope):
         sub = n["inner"][0]
         if ck == "LValueToRValue":
             s = unparen(sub)
+            if s.get("kind") == "DeclRefExpr" and s.get("referencedDecl", {}).get("kind") == "VarDecl" and s["referencedDecl"]["name"] not in scope \
+                    and s["referencedDecl"]["name"] in GLOBAL_VT and norm_t(qt(s)) == "sbdf_valuetype":
+                return "(EConst %s)" % zlit(GLOBAL_VT[s["referencedDecl"]["name"]]), Fx()
             v = var_of(s, scope)
             if v is not None:
                 f = Fx(); f.r.add(v); return '(EVar "%s")' % v, f
@@ -636,6 +682,28 @@ def seq(parts):
 
 
 def stmt(n, scope, declared):
+    """a statement; in a function translated in part, one that cannot be expressed becomes SFault (reaching it is a fault)"""
+    if not IN_PARTIAL[0] or n.get("kind") in ("CompoundStmt",):
+        return stmt0(n, scope, declared)
+    saved = (set(scope), set(declared), set(EXTRA_LOCALS), set(OUTPARAMS))
+    try:
+        return stmt0(n, scope, declared)
+    except Untranslatable as ex:
+        del PENDING[:]
+        scope.clear(); scope.update(saved[0]); declared.clear(); declared.update(saved[1])
+        EXTRA_LOCALS.clear(); EXTRA_LOCALS.update(saved[2]); OUTPARAMS.clear(); OUTPARAMS.update(saved[3])
+        if n.get("kind") == "DeclStmt":
+            # the names stay declared (a later declaration of the same name is still refused), but nothing can read them
+            for d in n.get("inner", []):
+                if d.get("kind") == "VarDecl": declared.add(d["name"]); UNUSABLE.add(d["name"])
+        return '(SFault "%s")' % str(ex).replace('"', "'")[:80]
+
+
+UNUSABLE = set()
+DECLTYPE = {}          # local name -> C type of its declaration(s)
+
+
+def stmt0(n, scope, declared):
     """a statement; calls met inside its expressions are hoisted in front of it"""
     k = n.get("kind")
     if k in ("CompoundStmt", "NullStmt", "BreakStmt"):
@@ -656,7 +724,12 @@ def stmt(n, scope, declared):
 def stmt1(n, scope, declared):
     k = n.get("kind")
     if k == "CompoundStmt":
-        return seq([stmt(c, scope, declared) for c in n.get("inner", [])])
+        entry = set(scope)
+        out = seq([stmt(c, scope, declared) for c in n.get("inner", [])])
+        # what the block declared goes out of scope with it (the compiler has checked that nothing refers to it later);
+        # a later block may declare the name again and reuse the slot: its declaration re-initialises it
+        scope.intersection_update(entry)
+        return out
     if k == "NullStmt":
         return "SSkip"
     if k == "DeclStmt":
@@ -665,12 +738,20 @@ def stmt1(n, scope, declared):
             if d.get("kind") != "VarDecl": raise Untranslatable("declaration of " + str(d.get("kind")))
             nm, t = d["name"], qt(d)
             if d.get("storageClass") in ("static", "extern"): raise Untranslatable("static local " + nm)
-            if not (t in CTY or is_charptr(t) or t.replace(" ", "") == "int*" or struct_of_ptr(t) or is_pp(t)): raise Untranslatable("local %s of type %s" % (nm, t))
-            if nm in declared: raise Untranslatable("second declaration of " + nm)
-            declared.add(nm)
+            if not (t in CTY or is_charptr(t) or t.replace(" ", "") == "int*" or struct_of_ptr(t) or is_pp(t) or (t == "sbdf_valuetype" and not d.get("inner"))): raise Untranslatable("local %s of type %s" % (nm, t))
+            if nm in declared and (nm in scope or DECLTYPE.get(nm) != t): raise Untranslatable("second declaration of " + nm)
+            declared.add(nm); DECLTYPE[nm] = t
             if d.get("inner"):
-                e, _ = expr(d["inner"][0], scope)
-                out.append('(SDecl "%s" (Some %s))' % (nm, e))
+                try:
+                    snap = (list(PENDING), set(EXTRA_LOCALS))
+                    e, _ = expr(d["inner"][0], scope)
+                    out.append('(SDecl "%s" (Some %s))' % (nm, e))
+                except Untranslatable:
+                    if not (callee_of(strip_casts(d["inner"][0])) in CALLABLE and t == "int"): raise
+                    # int x = g(..., &y): the declaration, then the call storing into it
+                    PENDING[:] = snap[0]; EXTRA_LOCALS.clear(); EXTRA_LOCALS.update(snap[1])
+                    out.append('(SDecl "%s" None)' % nm)
+                    out.append(call_stmt(nm, strip_casts(d["inner"][0]), scope))
             else:
                 out.append('(SDecl "%s" None)' % nm)
             scope.add(nm)
@@ -712,28 +793,40 @@ def stmt1(n, scope, declared):
         if body.get("kind") != "CompoundStmt": raise Untranslatable("switch body")
         groups = []; labels = []; stmts = []
         def flat(x):
-            # case A: case B: stmt  is nested: CaseStmt(A, CaseStmt(B, stmt))
+            # case A: case B: stmt  is nested: CaseStmt(A, CaseStmt(B, stmt)); default: stmt likewise
             if x.get("kind") == "CaseStmt":
                 labels.append(x["inner"][0]); flat(x["inner"][-1])
             elif x.get("kind") == "DefaultStmt":
-                raise Untranslatable("default label")
+                labels.append(None); flat(x["inner"][-1])
             else:
                 stmts.append(x)
         for x in body.get("inner", []):
-            if x.get("kind") == "CaseStmt" and stmts:
+            if x.get("kind") in ("CaseStmt", "DefaultStmt") and stmts:
                 groups.append((labels, stmts)); labels = []; stmts = []
-            elif x.get("kind") == "CaseStmt" and labels and not stmts:
-                pass
             flat(x)
         if labels: groups.append((labels, stmts))
+        if any(None in ls for (ls, ss) in groups[:-1]) or any(None in ls and len(ls) > 1 for (ls, ss) in groups):
+            raise Untranslatable("a default label that is not alone and last")
+        def has_break(x):
+            if x.get("kind") == "BreakStmt": return True
+            return any(has_break(c_) for c_ in x.get("inner", []) if isinstance(c_, dict))
+        bodies = []
+        for (ls, ss) in groups:
+            # a case ends in return, or in a break that is its last statement (control then goes on behind the switch); no fall-through
+            if not ss or ss[-1].get("kind") not in ("ReturnStmt", "BreakStmt"): raise Untranslatable("a case that falls through")
+            if ss[-1].get("kind") == "BreakStmt": ss = ss[:-1]
+            if any(has_continue_or_break(x) or has_break(x) for x in ss): raise Untranslatable("break inside a case")
+            if any(x.get("kind") == "DeclStmt" for x in ss): raise Untranslatable("a declaration directly under a case label")
+            bodies.append(seq([stmt(x, scope, declared) for x in ss]))
         out = "SSkip"
-        for (ls, ss) in reversed(groups):
-            if not ss or ss[-1].get("kind") != "ReturnStmt": raise Untranslatable("a case that does not end in return")
-            if any(has_continue_or_break(x) or x.get("kind") == "BreakStmt" for x in ss): raise Untranslatable("break inside a case")
+        for (ls, ss), bodyt in reversed(list(zip(groups, bodies))):
+            if None in ls:
+                out = bodyt
+                continue
             tests = ["(EBin Eq %s %s)" % (c, expr(l, scope)[0]) for l in ls]
             t = tests[0]
             for u in tests[1:]: t = "(ELOr %s %s)" % (t, u)
-            out = "(SIf %s %s %s)" % (t, seq([stmt(x, scope, declared) for x in ss]), out)
+            out = "(SIf %s %s %s)" % (t, bodyt, out)
         return out
     if k == "BreakStmt":
         return "SBreak"
@@ -790,7 +883,9 @@ def main():
             if len(set(params)) != len(params): raise Untranslatable("duplicate parameter names")
             body = [c for c in decl["inner"] if c.get("kind") == "CompoundStmt"][0]
             scope = set(params); declared = set(params)
-            OUTPARAMS.clear(); EXTRA_LOCALS.clear()
+            OUTPARAMS.clear(); EXTRA_LOCALS.clear(); DECLTYPE.clear()
+            IN_PARTIAL[0] = fn in PARTIAL
+            GLOBAL_VT.clear(); GLOBAL_VT.update(global_vts(cache[(path, cfg)]))
             CELLS_MODE[0] = any(c.get("kind") == "ParmVarDecl" and norm_t(qt(c)) == "void**" for c in decl["inner"])
             b = stmt(body, scope, declared)
             if "EDeref" in b and ("EReadByte" in b): raise Untranslatable("the input is used both as memory and as a stream")
